@@ -126,13 +126,11 @@ fn embeddings() -> Vec<Vec<Vec<Strength>>> {
         (second, Pick::Last),
         (eval, Pick::Spread),
     ];
-    let sentinel = Strength::from((Ranking::MAX, Kickers::default()));
     let mut tabs = vec![];
     for (pool, pick) in pools {
         for w in pool.windows(2) {
             assert!(w[0] < w[1], "strength pool not strictly increasing");
         }
-        assert!(pool.iter().all(|x| *x < sentinel), "sentinel not above the pool");
         assert!(pool.len() >= MAXLEVELS);
         let n = pool.len();
         let mut by_k = vec![];
